@@ -7,7 +7,7 @@ tools/selftest.py --parallel 2 --jobs 8 > selftest_results/mutants.log 2>&1
 tail -1 selftest_results/mutants.log
 : > selftest_results/seeded.log
 for d in seeded/*/; do
-  p=$(/venv/bin/python -c "import json,sys;print(json.load(open('$d/meta.json'))['property'])")
+  p=$(/venv/bin/python -c "import json,sys;m=json.load(open('$d/meta.json'));print(m.get('check_with',m['property']))")
   tools/seeded.py $d $p 2>&1 | head -3 >> selftest_results/seeded.log
 done
 for d in benign/*/; do
